@@ -9,10 +9,12 @@ verus! {
 
 pub open spec fn strictly_increasing(s: Seq<u32>) -> bool { forall|i: int, j: int| 0 <= i < j < s.len() ==> s[i] < s[j] }
 pub open spec fn non_decreasing(s: Seq<u32>) -> bool { forall|i: int, j: int| 0 <= i <= j < s.len() ==> s[i] <= s[j] }
+#[verifier::opaque]
 pub open spec fn same_set(a: Seq<u32>, b: Seq<u32>) -> bool {
     (forall|i: int| 0 <= i < a.len() ==> b.contains(#[trigger] a[i])) && (forall|i: int| 0 <= i < b.len() ==> a.contains(#[trigger] b[i]))
 }
 /// the non-zero members of `s`, as a set
+#[verifier::opaque]
 pub open spec fn nonzero_members(s: Seq<u32>, r: Seq<u32>) -> bool {
     (forall|i: int| 0 <= i < r.len() ==> (#[trigger] r[i]) != 0 && s.contains(r[i]))
     && (forall|i: int| 0 <= i < s.len() ==> ((#[trigger] s[i]) != 0 ==> r.contains(s[i])))
@@ -21,7 +23,7 @@ pub open spec fn nonzero_members(s: Seq<u32>, r: Seq<u32>) -> bool {
 // `zooms.iter().copied().filter(|z| *z != 0).collect()` (iterator chain, outside Verus): verified stand-in,
 // substituted for exactly that text
 pub fn nonzero_copy(v: &Vec<u32>) -> (r: Vec<u32>)
-    ensures nonzero_members(v@, r@),
+    ensures nonzero_members(v@, r@), forall|k: int| 0 <= k < r@.len() ==> (#[trigger] r@[k]) != 0,
 {
     let mut out: Vec<u32> = Vec::new();
     let mut i: usize = 0;
@@ -46,6 +48,7 @@ pub fn nonzero_copy(v: &Vec<u32>) -> (r: Vec<u32>)
         }
         i = i + 1;
     }
+    proof { reveal(nonzero_members); }
     out
 }
 // slice::sort_unstable / Vec::dedup on u32: assumed std contracts (no vstd spec)
@@ -64,6 +67,30 @@ pub fn dedup_u32(v: &mut Vec<u32>)
         non_decreasing(old(v)@) ==> strictly_increasing(final(v)@),
 { v.dedup() }
 
+/// membership is carried through steps that keep the member set (sorting, de-duplicating)
+pub proof fn lemma_members_through(s: Seq<u32>, a: Seq<u32>, b: Seq<u32>)
+    requires nonzero_members(s, a), same_set(a, b),
+    ensures nonzero_members(s, b), forall|i: int| 0 <= i < b.len() ==> (#[trigger] b[i]) != 0,
+{
+    reveal(nonzero_members); reveal(same_set);
+    assert forall|i: int| 0 <= i < b.len() implies (#[trigger] b[i]) != 0 && s.contains(b[i]) by {
+        assert(a.contains(b[i]));
+        let j = choose|j: int| 0 <= j < a.len() && a[j] == b[i];
+        assert(a[j] != 0 && s.contains(a[j]));
+    }
+    assert forall|i: int| 0 <= i < s.len() implies ((#[trigger] s[i]) != 0 ==> b.contains(s[i])) by {
+        if s[i] != 0 {
+            assert(a.contains(s[i]));
+            let j = choose|j: int| 0 <= j < a.len() && a[j] == s[i];
+            assert(b.contains(a[j]));
+        }
+    }
+}
+pub proof fn lemma_members_nonzero(s: Seq<u32>, r: Seq<u32>)
+    requires nonzero_members(s, r),
+    ensures forall|i: int| 0 <= i < r.len() ==> (#[trigger] r[i]) != 0,
+{ reveal(nonzero_members); }
+pub proof fn lemma_same_set_refl(a: Seq<u32>) ensures same_set(a, a) { reveal(same_set); }
 pub proof fn lemma_strict(s: Seq<u32>)
     requires non_decreasing(s), no_adjacent_repeat(s),
     ensures strictly_increasing(s),
@@ -83,11 +110,21 @@ fn manual_zoom_list(zooms: &Vec<u32>) -> (r: Vec<u32>)
         
         nonzero_members(zooms@, r@),
 {
+    let ghost given = zooms@;
+
     {
             // Zoom levels are listed with strictly increasing resolution
             let mut zooms: Vec<u32> = nonzero_copy(zooms);
+
+            let ghost before_sort = zooms@;
             sort_unstable_u32(&mut zooms);
+
+            proof { lemma_members_through(given, before_sort, zooms@); }
+
+            let ghost before_dedup = zooms@;
             dedup_u32(&mut zooms);
+
+            proof { if nonzero_members(given, before_dedup) { lemma_members_through(given, before_dedup, zooms@); } }
             zooms
         }
 }
